@@ -143,6 +143,29 @@ Proof.
 Qed.
 End Affine.
 
+(* the same values in ANY derivative mode, at any point where the first differences of the field are exact *)
+Section ExactD1.
+Variables (m : dmode) (sh : list Z) (sp : list K) (v : field) (Jm : nat -> nat -> K) (i : idx).
+Hypothesis Hd1 : forall c d, In c (dims sh) -> In d (dims sh) -> d1 m sh sp d (comp v c) i = Jm c d.
+
+Lemma gradient_terms_exact (fabs : K -> K) lambda mu :
+  diffusion_pt m sh sp v i = sumf (dims sh) (fun d => sumf (dims sh) (fun c => sq (Jm c d))) / (1 + 1) /\
+  tv_pt m sh sp v i fabs = sumf (dims sh) (fun d => sumf (dims sh) (fun c => fabs (Jm c d))) /\
+  div_pt m sh sp v i = sq (sumf (dims sh) (fun c => Jm c c)) / (1 + 1) /\
+  elasticity_pt m sh sp v i lambda mu
+  = sq (sumf (dims sh) (fun c => Jm c c)) * (lambda / (1 + 1))
+    + sumf (dims sh) (fun j => sumf (dims sh) (fun k => sq (Jm j k + Jm k j) * (mu / ((1 + 1) * (1 + 1))))).
+Proof.
+  repeat split.
+  - unfold diffusion_pt. f_equal. apply sumf_ext. intros d Hd. apply sumf_ext. intros c Hc. rewrite Hd1 by assumption. reflexivity.
+  - unfold tv_pt. apply sumf_ext. intros d Hd. apply sumf_ext. intros c Hc. rewrite Hd1 by assumption. reflexivity.
+  - unfold div_pt. f_equal. f_equal. apply sumf_ext. intros c Hc. apply Hd1; assumption.
+  - unfold elasticity_pt. f_equal.
+    + f_equal. f_equal. apply sumf_ext. intros c Hc. apply Hd1; assumption.
+    + apply sumf_ext. intros j Hj. apply sumf_ext. intros k Hk. rewrite !Hd1 by assumption. reflexivity.
+Qed.
+End ExactD1.
+
 (* translations: all first-order terms vanish *)
 Lemma translation_zero sh sp (v : field) t (i : idx) (fabs : K -> K) lambda mu :
   is_affine_field v t (fun _ => []) -> spacing_ok sh sp -> length i = length sh -> fabs 0 = 0 ->
